@@ -69,6 +69,7 @@ type HarnessRun struct {
 	Traces        []*PathTrace // sampled completed paths with model + observations
 	Assumes       int
 	maxTraces     int
+	Notes         []string
 	UsedOverrides bool
 	NonFaithful   bool
 	EngineOnlyAPI bool // the harness called vRunSpawned/vSpawnCount/vSendCount/vLocksHeldNow/vDistinctRandom (no native counterpart)
@@ -314,6 +315,27 @@ func registerHarnessAPI(e *Exec) {
 		"vRunSpawned": func(e *Exec, st *State, fn *ssa.Function, args []Value) []Outcome {
 			return e.runSpawned(st, 0)
 		},
+		"vSharedMapRaces": func(e *Exec, st *State, fn *ssa.Function, args []Value) []Outcome {
+			// maps accessed with no lock held by two different goroutines, at least one access a write
+			n := 0
+			seen := map[int]bool{}
+			for _, a := range st.unlockedMapAccess {
+				if seen[a.obj] {
+					continue
+				}
+				for _, b := range st.unlockedMapAccess {
+					if b.obj == a.obj && b.g != a.g && (a.write || b.write) {
+						seen[a.obj] = true
+						n++
+						if e.h != nil && len(e.h.Notes) < 8 {
+							e.h.Notes = append(e.h.Notes, fmt.Sprintf("map accessed with no lock held by two goroutines: %s / %s", a.where, b.where))
+						}
+						break
+					}
+				}
+			}
+			return ret(st, BV{e.tc.Int(int64(n))})
+		},
 		"vDistinctRandom": func(e *Exec, st *State, fn *ssa.Function, args []Value) []Outcome {
 			st.distinctRand = true
 			return ret(st)
@@ -411,7 +433,11 @@ func (e *Exec) runSpawned(st *State, n int) []Outcome {
 	st.spawned = append([]Spawn(nil), st.spawned[1:]...)
 	var outs []Outcome
 	e.inSpawned++
+	e.spawnSeq++
+	saveWM := e.spawnWatermark
+	e.spawnWatermark = e.nextObj
 	res := e.callValue(st, sp.Fn, sp.Args, e.curDepth+1)
+	e.spawnWatermark = saveWM
 	e.inSpawned--
 	for _, o := range res {
 		if o.panicked && o.st.parked {
